@@ -29,6 +29,8 @@ class Contract:
         # Each entry is also a postcondition `result.<name> is <expr>` proved on the body.
         self.result_fields = g("result_fields", {})
         self.loops = g("loops", {})
+        self.definitional = g("definitional", [])   # labels of ghost-marker clauses: assumed at call sites, not obligations
+        self.comprehensions = g("comprehensions", {})   # ordinal (source order) -> "lambda x: <element spec>"
         self.modifies = g("modifies", [])
         self.frame = g("frame", None)            # names of parameters that must not be mutated
         self.clause_tags = g("tags", {})         # label -> [props]
@@ -367,6 +369,9 @@ class _Cls(Desc):
         self.py, self.sub_of, self.proper = py, sub_of, proper
         self.name = name or ("class[%s]" % (py.__name__ if py else ("<=" + sub_of.__name__ if sub_of else "any")))
 
+    def accepts(self, v):
+        return isinstance(v, VCls)
+
     def fresh(self, ex, pname):
         if self.py is not None:
             return ex.world.classes.of_py(self.py)
@@ -387,6 +392,16 @@ class _Rec(Desc):
 
     def fresh(self, ex, pname):
         return ex.world.models[self.model].fresh(ex, pname, **self.opts)
+
+    def accepts(self, v):
+        """callee side: the record's fields fit the field descriptors this case fixes"""
+        if not isinstance(v, VRec):
+            return False
+        for f, d in self.opts.items():
+            cur = v.fields.get(f)
+            if cur is None or not d.accepts(cur):
+                return False
+        return True
 
 
 class _Const(Desc):
@@ -411,6 +426,9 @@ class _Opaque(Desc):
     def __init__(self, nm):
         self.nm = nm
         self.name = nm
+
+    def accepts(self, v):
+        return isinstance(v, VOpaque) and v.name == self.nm
 
     def fresh(self, ex, pname):
         return VOpaque(self.nm)
